@@ -32,6 +32,12 @@
 //!                       sees it: keys bucketed by the top b = log2_buckets bits of sig[0], sorted by
 //!                       signature if d = check_dups, then count_sort; impl: the real cells -> ok peeled <[cells]>
 //!   qbig <count>        sampled member queries of a big build (no parts)       -> ok <number wrong>
+//!   crafted_empty_shard <n> <empty_shard|-> <threads>   directed search case for defect D31 (par_solve worker
+//!                       `return`ed on an empty shard): Mwhc3Shards, eps 0.01, builder seed 0, n keys crafted
+//!                       against the first-attempt seed so that 127 (or 128 with `-`) of the 128 shards hold
+//!                       exactly n/127 (n/128) keys and shard <empty_shard> none; >= 1000 keys per shard queried
+//!                       -> ok shards=<S> wrong=<count> first_wrong_shard=<k|-> | err <n|bits|guard|build|nomwhc>
+//!                       (the Lean runner answers `unmodelled`; the oracle expects wrong=0)
 //! The naive oracle knows the key/value lists and expects: `ok` for duplicate-free builds,
 //! `err` for duplicates with check_dups / injected faults that are reached, the stored value
 //! for every member `get`, `1` for member `contains`, `len = n`, `hash_bits = b`.
@@ -1359,6 +1365,22 @@ impl St {
             ctx.reply(&r);
             return;
         }
+        if t[0] == "crafted_empty_shard" {
+            let r = if t.len() != 4 {
+                "bad-op".to_string()
+            } else {
+                match (
+                    t[1].parse::<usize>(),
+                    if t[2] == "-" { Ok(None) } else { t[2].parse::<usize>().map(Some) },
+                    t[3].parse::<usize>(),
+                ) {
+                    (Ok(n), Ok(empty), Ok(threads)) => crafted_empty_shard(ctx, n, empty, threads),
+                    _ => "bad-op".to_string(),
+                }
+            };
+            ctx.reply(&r);
+            return;
+        }
         let inst = match &self.inst {
             Some(i) => i,
             None => {
@@ -1577,6 +1599,134 @@ impl St {
 
 /// size of the 2-core of a 3-uniform hypergraph (naive: repeatedly delete an edge that has a
 /// vertex of degree one)
+/// D31 search case (see the protocol comment and /verif/findings/D31/d31_demo.rs, whose crafting
+/// recipe this follows).  The seed of the first attempt is `SmallRng::seed_from_u64(0).random()`;
+/// it is read off a one-key build with the same (default) builder seed, whose first attempt always
+/// succeeds and whose stored seed therefore is that value.
+#[cfg(feature = "mwhc")]
+fn crafted_empty_shard(ctx: &mut Ctx, n: usize, empty: Option<usize>, threads: usize) -> String {
+    use sux::func::shard_edge::Mwhc3Shards;
+    const BITS: u32 = 7;
+    const S: usize = 1 << BITS;
+    const EPS: f64 = 0.01;
+    // verbatim copies of the private functions of src/func/shard_edge.rs
+    fn sharding_high_bits(n: usize, eps: f64) -> u32 {
+        let t = (n as f64 * eps * eps / 2.0).max(1.);
+        (t.log2() - t.ln().max(1.).log2()).floor() as u32
+    }
+    fn dup_edge_high_bits(n: usize, c: f64, eta: f64) -> u32 {
+        let n = n as f64;
+        (0.5 * (n.log2() + 1. + 3. * c.log2() - 3. * 3_f64.log2() + (-(1. - eta).ln()).log2()))
+            .floor() as u32
+    }
+    type B = VBuilder<usize, BitFieldVec<usize>, [u64; 2], Mwhc3Shards>;
+    if empty.map(|e| e >= S).unwrap_or(false) || threads == 0 {
+        return "err n".into();
+    }
+    let full = if empty.is_some() { S - 1 } else { S };
+    if n == 0 || n % full != 0 {
+        return "err n".into();
+    }
+    let q = n / full;
+    if Ord::min(sharding_high_bits(n, EPS), dup_edge_high_bits(n, 1.23, 0.001)) != BITS {
+        return "err bits".into();
+    }
+    if q as f64 > 1.01 * n as f64 / S as f64 {
+        return "err guard".into();
+    }
+    // seed of the first attempt
+    let first_seed = match catch(|| {
+        B::default().try_build_func(
+            FromIntoIterator::from(0u64..1),
+            FromIntoIterator::from(0usize..),
+            no_logging![],
+        )
+    }) {
+        Some(Ok(f)) => f.verif_parts().1,
+        _ => return "err build".into(),
+    };
+    ctx.stat(&format!("d31_first_seed:{:016x}", first_seed));
+    let shard_of = |key: u64| -> usize {
+        let sig: [u64; 2] = <u64 as ToSig<[u64; 2]>>::to_sig(&key, first_seed);
+        (sig[0] >> (63 - BITS) >> 1) as usize
+    };
+    // candidates 0, 1, 2, ...; skip the shard to be left empty and shards whose quota is full
+    let mut keys: Vec<u64> = Vec::with_capacity(n);
+    let mut sizes = vec![0usize; S];
+    // sample: per shard the first 512 keys and every (q / 600)-th one (>= 1000 keys per shard)
+    let stride = Ord::max(q / 600, 1);
+    let mut sample: Vec<(u32, u8)> = Vec::new();
+    let mut cand = 0u64;
+    while keys.len() < n {
+        let s = shard_of(cand);
+        if Some(s) != empty && sizes[s] < q {
+            if sizes[s] < 512 || sizes[s] % stride == 0 {
+                sample.push((keys.len() as u32, s as u8));
+            }
+            sizes[s] += 1;
+            keys.push(cand);
+        }
+        cand += 1;
+    }
+    let keys = Arc::new(keys);
+    let kk = keys.clone();
+    let built = catch(move || {
+        B::default()
+            .expected_num_keys(n)
+            .offline(false)
+            .max_num_threads(threads)
+            .eps(EPS)
+            .try_build_func(
+                FromIntoIterator::from(KeyIter { keys: kk, pos: 0 }),
+                FromIntoIterator::from(0usize..),
+                no_logging![],
+            )
+    });
+    let func = match built {
+        Some(Ok(f)) => f,
+        Some(Err(_)) => return "err build".into(),
+        None => return "panic".into(),
+    };
+    let shards = func.verif_parts().0.num_shards();
+    let mut wrong = vec![0usize; S];
+    for &(i, s) in &sample {
+        if func.get(&keys[i as usize]) != i as usize {
+            wrong[s as usize] += 1;
+        }
+    }
+    let total: usize = wrong.iter().sum();
+    let first = wrong.iter().position(|&w| w > 0);
+    ctx.stat(&format!("d31_sampled:{}", sample.len()));
+    let r = format!(
+        "ok shards={} wrong={} first_wrong_shard={}",
+        shards,
+        total,
+        first.map(|k| k.to_string()).unwrap_or_else(|| "-".into())
+    );
+    ctx.check_oracle(&format!("ok shards={} wrong=0 first_wrong_shard=-", S), &r);
+    r
+}
+
+#[cfg(not(feature = "mwhc"))]
+fn crafted_empty_shard(_ctx: &mut Ctx, _n: usize, _empty: Option<usize>, _threads: usize) -> String {
+    "err nomwhc".into()
+}
+
+/// a clonable iterator over shared keys (the lender is rewound by cloning it)
+#[derive(Clone)]
+struct KeyIter {
+    keys: Arc<Vec<u64>>,
+    pos: usize,
+}
+impl Iterator for KeyIter {
+    type Item = u64;
+    fn next(&mut self) -> Option<u64> {
+        let r = if self.pos < self.keys.len() { Some(self.keys[self.pos]) } else { None };
+        self.pos += 1;
+        r
+    }
+}
+
 fn naive_core_size(nv: usize, edges: &[[usize; 3]]) -> usize {
     let mut deg = vec![0usize; nv];
     for e in edges {
@@ -1953,6 +2103,7 @@ pub fn run(ctx: &mut Ctx) {
     let ns1_func = combo_of("func", "vec", "usize", "64", "box", 1, "noshards");
     let ns2_func = combo_of("func", "vec", "usize", "64", "bfv", 2, "noshards");
     let fs_func = combo_of("func", "vec", "usize", "64", "bfv", 2, "fullsigs");
+    let fs_filter = combo_of("filter", "vec", "usize", "8", "box", 2, "fullsigs");
 
     // ---------------- directed core (independent of the seed) ----------------
     // A. every type combination once, small n cycling through the regime boundaries
@@ -2247,6 +2398,18 @@ pub fn run(ctx: &mut Ctx) {
         }
     }
 
+    // I. defect D31 (a par_solve worker returned on an empty shard): 128 Mwhc3Shards shards, one
+    //    of them emptied by crafting the keys against the first-attempt seed, one thread.
+    //    Thorough tier only: ~21 s and 3.8 GB per case in the dev profile.
+    if thorough && cfg!(feature = "mwhc") {
+        for e in [64usize, 0] {
+            let mut st = St::default();
+            st.exec(ctx, "case", false);
+            ctx.shape(format!("crafted_empty_shard:{}", e));
+            st.exec(ctx, &format!("crafted_empty_shard 119380000 {} 1", e), false);
+        }
+    }
+
     // ---------------- seeded random part ----------------
     let small_ns: Vec<usize> = if thorough {
         (0..=3000).collect()
@@ -2302,9 +2465,13 @@ pub fn run(ctx: &mut Ctx) {
             (800_001, ns1_func),
             (1_000_000, fs_func),
             (1_000_000, combo_of("filter", "vec", "usize", "8", "box", 2, "shards")),
+            (150_000, fs_filter),
+            (300_000, combo_of("filter", "vec", "usize", "64", "bfv", 2, "fullsigs")),
         ]
     } else {
-        vec![(100_001, default_func), (200_001, box_func)]
+        // the non-default sharded logic too (queries go through `ShardEdge::edge`, the build
+        // through `shard` + `local_edge`: they must agree on the shard)
+        vec![(100_001, default_func), (200_001, box_func), (120_000, fs_filter)]
     };
     for (n, c) in bigs {
         let mut s = random_spec(ctx, &c, n);
